@@ -15,6 +15,7 @@ CONSTANTS
   ReportOnce = TRUE
   MaxLevel = 9
   EmitJson = FALSE
+  PruneOnlyOwned = FALSE
   AtomicPush = TRUE
   FixSelect = TRUE
   FixDirect = TRUE
